@@ -9,13 +9,20 @@ this: it has called `_get_type_registry()` before anything else.)
 stdin : {"histories": [H, ...], "par": k}
   H = {"id": n, "objs": {name: {"value": tagged value} | {"fixture": rel, "index": i[, "unit": u]}},
        "ops": [{"op": "to_json", "obj": name, "bin": null|true|false}      null = x.to_json()
+                                                                           "temp": true = the object is built for this call and dropped after it
                {"op": "from_json", "stored": name, "src": name}            the JSON ANOTHER process wrote for object `name`
                                                                            (a child forked before the history starts)
                {"op": "from_json", "of": label, "src": name}               the JSON the (last) to_json step carrying "label": label
                                                                            produced, through json text
                {"op": "from_json_bad", "json_text": T}                     a malformed document (may raise)
                {"op": "units", "obj": name}                                to_json of every unit
-               {"op": "cli", "flags": [...], "fixture": rel}]}
+               {"op": "cli", "flags": [...], "fixture": rel | "input": generated-input spec}
+               a from_json op may carry "as": name; the object it returned is then used by
+               {"op": "use", "y": name, "how": "read"|"close"|"api-read", "leaf": i|null}   read() / close() the i-th (all) io.BytesIO
+                                                                           leaves of the restored object, in walk order; api-read =
+                                                                           get_bytes().read() of every image / .data.read() of every attachment
+               {"op": "observe", "y": name}]}                              to_json() of the restored object, now
+     objs may also be {"input": generated-input spec, "index": i[, "unit": u]} (props.c05.build_input)
 stdout: [{"id": n, "steps": [...raw outcome per op, tagged values...], "findings": [{"key","what"}], "pristine": bool}]
 
 The steps are executed first and only recorded; the property statement is judged afterwards (the judge makes
@@ -60,7 +67,7 @@ def run_history(P, H):
     def build(spec):
         if "value" in spec:
             return P.dec(spec["value"])
-        rs = P._run_desc({k: v for k, v in spec.items() if k in ("fixture", "xlsx_rows")})
+        rs = P._run_desc({k: v for k, v in spec.items() if k in ("fixture", "xlsx_rows", "input")})
         r = rs[spec.get("index", 0)]
         if spec.get("unit") is not None:
             r = list(r.iterate_units())[spec["unit"]]
@@ -100,12 +107,40 @@ def run_history(P, H):
             stored[op["stored"]] = written_elsewhere(H["objs"][op["stored"]])
 
     raw = []
+    named = {}     # "as" name -> index of the from_json step that returned the object
+
+    def cli_path(op):
+        return P.input_path(op["input"]) if "input" in op else os.path.join(corpus.RES, op["fixture"])
+
     for op in H["ops"]:
         k = op["op"]
         rec = {"op": k, "label": op.get("label")}
         try:
+            if k in ("use", "observe"):
+                src = raw[named[op["y"]]] if op.get("y") in named else {}
+                if "y" not in src:
+                    rec["err"] = "no-object"
+                elif k == "observe":
+                    rec["j"] = src["y"].to_json() if hasattr(src["y"], "to_json") else S.serialize_extraction(src["y"])
+                elif op.get("how") == "api-read":
+                    rec["reads"] = [s.read() for _, s in P._api_streams(src["y"])]
+                else:
+                    ls = P._stream_leaves(src["y"])
+                    if op.get("leaf") is not None:
+                        ls = ls[op["leaf"]:op["leaf"] + 1]
+                    rec["reads"] = []
+                    for _, s in ls:
+                        try:
+                            rec["reads"].append(s.close() if op.get("how") == "close" else s.read())
+                        except ValueError:
+                            rec["reads"].append("ValueError")
+                raw.append(rec)
+                continue
+            if op.get("as"):
+                named[op["as"]] = len(raw)
             if k == "to_json":
-                x = obj(op["obj"])
+                # "temp": the object is built for this call and dropped right after it (what a caller looping over files does)
+                x = build(H["objs"][op["obj"]]) if op.get("temp") else obj(op["obj"])
                 b = op.get("bin")
                 rec["j"] = x.to_json() if (b is None and hasattr(x, "to_json")) else S.serialize_extraction(x, include_binary=True if b is None else b)
             elif k in ("from_json", "from_json_bad"):
@@ -119,11 +154,14 @@ def run_history(P, H):
                     J = json.loads(op["json_text"])   # text, so that the key order survives the replay file
                 rec["J"] = J
                 rec["y"] = ExtractionInterface.from_json(copy.deepcopy(J))
+                if op.get("as"):
+                    rec["y_enc"] = P.enc(rec["y"])      # as returned: later steps of the history read / close its streams
             elif k == "units":
                 x = obj(op["obj"])
                 rec["units"] = [u.to_json() if hasattr(u, "to_json") else S.serialize_extraction(u) for u in x.iterate_units()]
             elif k == "cli":
-                rec["rc"], rec["out"], rec["errtext"] = P._run_cli(op["flags"], os.path.join(corpus.RES, op["fixture"]))
+                rec["path"] = cli_path(op)
+                rec["rc"], rec["out"], rec["errtext"] = P._run_cli(op["flags"], rec["path"])
             else:
                 rec["err"] = "bad-op"
         except Exception as e:  # noqa
@@ -137,13 +175,15 @@ def run_history(P, H):
         s = {"op": rec["op"]}
         if "err" in rec:
             s["err"] = rec["err"]
+        elif "reads" in rec:
+            s["reads"] = [r if isinstance(r, str) else list(r or b"") for r in rec["reads"]]
         elif "j" in rec:
             try:
                 s["j"] = P.enc(json.loads(json.dumps(rec["j"])))
             except Exception as e:  # noqa
                 s["notjson"] = type(e).__name__
         elif "y" in rec:
-            s["ok"] = P.enc(rec["y"])
+            s["ok"] = rec["y_enc"] if "y_enc" in rec else P.enc(rec["y"])
         elif "units" in rec:
             try:
                 s["units"] = len(rec["units"])
@@ -163,9 +203,71 @@ def run_history(P, H):
         return add
 
     import dataclasses
+    # reference model of what the history did to each restored object's own streams: every restored object owns its
+    # streams, so what a read returns / whether to_json works depends on the operations addressed to THAT object only
+    ref = {}        # "as" name -> {"x": original, "leaves": [[payload, pos, closed]], "paths": [...]}
+    spoiled = set()  # indices of from_json steps whose object had a stream closed by the history itself
+    for i, (op, rec) in enumerate(zip(H["ops"], raw)):
+        try:
+            if op["op"] == "from_json" and op.get("as") and "y" in rec and op.get("src") is not None:
+                x = obj(op["src"])
+                ls = P._stream_leaves(x)
+                ref[op["as"]] = {"x": x, "leaves": [[s.getvalue(), 0, False] for _, s in ls], "paths": [p for p, _ in ls], "step": i}
+            elif op["op"] in ("use", "observe") and op.get("y") in ref and "err" not in rec:
+                R = ref[op["y"]]
+                add = adder(i, R["x"])
+                if op["op"] == "observe":
+                    if any(c for _, _, c in R["leaves"]):
+                        continue          # the history closed one of this object's own streams
+                    want = raw[R["step"]]["J"]
+                    if P._canon_json(json.loads(json.dumps(rec["j"]))) != P._canon_json(want):
+                        add("serial.restored-object-changed", f"to_json() of the object restored at step {R['step']} no longer equals the JSON it was restored from "
+                            "(nothing was done to this object)")
+                    continue
+                if op.get("how") == "api-read":
+                    want = [s.getvalue() for _, s in P._api_streams(R["x"])]
+                    if [bytes(r) for r in rec["reads"]] != want:
+                        add("serial.restored-stream-short", f"image / attachment bytes read through the interface of the object restored at step {R['step']}: lengths "
+                            f"{[len(r) for r in rec['reads']]}, expected {[len(w) for w in want]}")
+                    for L in R["leaves"]:
+                        L[1] = len(L[0])
+                    continue
+                idx = range(len(R["leaves"])) if op.get("leaf") is None else ([op["leaf"]] if op["leaf"] < len(R["leaves"]) else [])
+                if len(rec["reads"]) != len(list(idx)):
+                    add("serial.restored-stream-missing", f"object restored at step {R['step']} has {len(rec['reads'])} streams, the original {len(R['leaves'])}")
+                    continue
+                for n, got in zip(idx, rec["reads"]):
+                    L = R["leaves"][n]
+                    if op.get("how") == "close":
+                        L[2] = True
+                        spoiled.add(R["step"])
+                        continue
+                    exp = "ValueError" if L[2] else L[0][L[1]:]
+                    L[1] = max(L[1], len(L[0]))
+                    if got != exp:
+                        path = ".".join(map(str, R["paths"][n]))
+                        add("serial.restored-stream-short", f"read() of {path} of the object restored at step {R['step']} returned "
+                            f"{got if isinstance(got, str) else str(len(got)) + ' bytes'}, expected "
+                            f"{exp if isinstance(exp, str) else str(len(exp)) + ' bytes'} (its own stream was not touched before)")
+            elif op["op"] == "observe" and "err" in rec and op.get("y") in ref and not any(c for _, _, c in ref[op["y"]]["leaves"]):
+                add = adder(i, ref[op["y"]]["x"])
+                add("serial.restored-object-broken", f"to_json() of the object restored at step {ref[op['y']]['step']} raised {rec['err']}: {rec.get('errmsg')} "
+                    "(none of its own streams was closed)")
+        except Exception as e:  # noqa
+            findings.append({"key": "judge-crashed", "what": f"step {i}: {type(e).__name__}: {e} {traceback.format_exc()[-300:]}"})
+    # restored objects share nothing mutable (each from_json was given its own freshly parsed JSON)
+    try:
+        ys = [(i, rec["y"]) for i, rec in enumerate(raw) if "y" in rec and H["ops"][i]["op"] == "from_json" and H["ops"][i].get("src") is not None]
+        for msg in P._shared_mutables(ys)[:1]:
+            if not any(f["key"] == "serial.restored-objects-share-state" for f in findings):
+                findings.append({"key": "serial.restored-objects-share-state", "what": msg})
+    except Exception as e:  # noqa
+        findings.append({"key": "judge-crashed", "what": f"sharing: {type(e).__name__}: {e} {traceback.format_exc()[-300:]}"})
     for i, (op, rec) in enumerate(zip(H["ops"], raw)):
         k = op["op"]
         try:
+            if k == "from_json" and i in spoiled:
+                continue
             if k == "to_json":
                 x = obj(op["obj"])
                 add = adder(i, x)
@@ -197,11 +299,11 @@ def run_history(P, H):
                     continue
                 P._judge_rebuilt(x, rec["y"], rec["J"], json.dumps(rec["J"]), add, None, findings)
             elif k == "cli" and "err" not in rec:
-                path = os.path.join(corpus.RES, op["fixture"])
+                path = rec["path"]
                 results = list(sharepoint2text.read_file(path))
                 for v in P._judge_cli_output(op["flags"], rec["rc"], rec["out"], rec["errtext"], results, {}):
                     if not any(f["key"] == v.key for f in findings):
-                        findings.append({"key": v.key, "what": f"step {i} (cli {op['fixture']}) {v.what}"})
+                        findings.append({"key": v.key, "what": f"step {i} (cli {op.get('fixture') or P._input_text(op['input'])}) {v.what}"})
             elif k == "units" and "err" not in rec:
                 x = obj(op["obj"])
                 for ui, (u, j) in enumerate(zip(x.iterate_units(), rec["units"])):
